@@ -356,7 +356,70 @@ def real_history_case(ctx, case):
         ctx.nt('real', repr(case))
 
 
-COMPONENTS = {'history': history_case, 'real_history': real_history_case}
+def listener_disconnect_case(ctx, case):
+    """'Answered exactly once' also when the user's code re-enters the write
+    path: an ordinary outgoing listener calls disconnect() right after the
+    d-th keep-alive reply went out (disconnect() flushes the replies that
+    are still queued).  All keep-alives arrive in one burst, i.e. one read
+    batch, so every one of them has its reply queued by then.
+    case {version, compress, ids: [...], d}"""
+    from minecraft.networking.packets import serverbound as sb
+    version, ids = case['version'], list(case['ids'])
+    d = case['d'] % len(ids)
+    ctx.ev()
+    login = [('compress', case['compress'])] \
+        if case.get('compress') is not None else []
+    srv = servers.Server({
+        'version': version, 'login': login + [('success',)],
+        'play': {'bursts': [[('keep_alive', {'keep_alive_id': i})
+                             for i in ids]], 'mode': 'all',
+                 'end': 'silent'}})
+    world = vnet.World(servers=[srv])
+    seen = []
+    with vnet.installed(world):
+        conn, o = servers.make_connection(world, allowed_versions={version})
+
+        def after_write(p):
+            seen.append(p.keep_alive_id)
+            if len(seen) == d + 1:
+                conn.disconnect()
+        conn.register_packet_listener(after_write, sb.play.KeepAlivePacket,
+                                      outgoing=True)
+        try:
+            conn.connect()
+        except Exception as e:
+            ctx.fail('listener_disconnect', 'K-connect-raised', case, exc=e)
+            return
+        state = world.settle()
+    if state == 'timeout':
+        from vlib.core import HarnessError
+        raise HarnessError('C11 listener_disconnect case did not settle')
+    if state != 'done':
+        ctx.fail('listener_disconnect', 'K-client-%s' % state, case)
+        return
+    if srv.errors:
+        ctx.fail('listener_disconnect', 'K1-malformed-client-frames', case,
+                 srv.errors[:2])
+        return
+    want = [('keep_alive', i) for i in ids]
+    if srv.replies != want:
+        ctx.fail('listener_disconnect', 'K1K2-replies', case, srv.replies,
+                 want)
+        return
+    if o.exceptions:
+        ctx.fail('listener_disconnect', 'K4-error-reported', case,
+                 repr(o.exceptions[0][0]))
+        return
+    if not world.links[0].closed_by_client():
+        ctx.fail('listener_disconnect', 'K4-link-left-open', case)
+        return
+    if len(ids) >= 2 and d < len(ids) - 1:
+        ctx.nt('listener_disconnect', repr(case))
+    ctx.label('listener_disconnect')
+
+
+COMPONENTS = {'history': history_case, 'real_history': real_history_case,
+              'listener_disconnect': listener_disconnect_case}
 
 
 # --------------------------------------------------------------- strategies
@@ -493,6 +556,22 @@ def t_real(ctx, versions, n):
                'real')
 
 
+def t_listener_disconnect(ctx, versions, n):
+    for v in versions:
+        for d in range(3):
+            listener_disconnect_case(ctx, {
+                'version': v, 'compress': [None, 0, 64][d],
+                'ids': [11, 0, 2 ** 31 - 1], 'd': d})
+    strat = st.fixed_dictionaries({
+        'version': st.sampled_from(versions),
+        'compress': st.sampled_from([None, 0, 64]),
+        'ids': st.lists(st.integers(0, 2 ** 31 - 1), min_size=1,
+                        max_size=40),
+        'd': st.integers(0, 39)})
+    hyp(ctx, 'listener_disconnect', strat,
+        lambda c, case: listener_disconnect_case(c, case), n)
+
+
 def tasks(tier):
     q = tier == 'quick'
     from vlib import refproto
@@ -512,6 +591,8 @@ def tasks(tier):
     for i in range(1 if q else 4):
         tl.append(('real_%d' % i, t_real,
                    dict(versions=rel, n=12 if q else 150)))
+    tl.append(('listener_disconnect', t_listener_disconnect,
+               dict(versions=rel[::3] if q else rel, n=60 if q else 1500)))
     for i in range(8 if q else 16):
         tl.append(('random_%d' % i, t_random,
                    dict(versions=vs, n=150 if q else 1500,
